@@ -358,7 +358,8 @@ static void run_uncaught_program(int kind_expected) {
     viol("C07", "C07:nontermination", "program with an uncaught %s did not terminate", KNAME_[kind_expected & 7]);
   if (!WIFEXITED(st) || WEXITSTATUS(st) == 0)
     viol("C07", "C07:uncaught-no-failure-status", "uncaught %s: process status %d (exited=%d)", KNAME_[kind_expected & 7], WIFEXITED(st) ? WEXITSTATUS(st) : -WTERMSIG(st), WIFEXITED(st));
-  if (!strstr(err, "Uncaught") || !strstr(err, KNAME_[kind_expected & 7]))
+  /* a diagnostic: something on stderr that names the exception (its wording is the implementation's business) */
+  if (!strstr(err, KNAME_[kind_expected & 7]))
     viol("C07", "C07:uncaught-no-diagnostic", "uncaught %s: stderr does not name it", KNAME_[kind_expected & 7]);
   stat_add("exc.uncaught_programs", 1);
 }
